@@ -4,7 +4,7 @@ from hypothesis import strategies as st
 from vf.harness import HarnessError, Task, drive, hx, run_cases_optimized, same_by_name, unhx
 from vf.model import kdf, nt, params
 from vf.model.secp import SECP
-from vf.props._secp_common import patched, tiny_curves, to_lib
+from vf.props._secp_common import patched, substitution_supported, tiny_curves, to_lib
 from vf.strategies import scalar_in
 
 RULE = ("(A) ecdsa_raw_recover with the module constants replaced by every prime-order curve "
@@ -119,6 +119,14 @@ def o_tiny(ctx, case):
 
 
 def t_tiny(ctx, curves):
+    ok, why = substitution_supported()
+    if not ok:
+        # the module no longer takes its curve from the substitutable names alone: this tier would report the
+        # optimisation, not the property.  The real-curve tier stands on its own.
+        ctx.note(f"tiny-curve tier skipped: {why}")
+        ctx.label("required_waived:A:")
+        ctx.label("tiny_tier_skipped")
+        return
     for (p, b, n, g) in curves:
         o_tiny(ctx, {"p": p, "b": b, "n": n, "g": list(g)})
 
